@@ -13,6 +13,7 @@ import LhasaV.Lemmas.ExtractTreeImp
 import LhasaV.Lemmas.ArchiveOs
 import LhasaV.Lemmas.ExtractTreeAll
 import LhasaV.Lemmas.ExtractTreeFlatAll
+import LhasaV.Lemmas.GenTool
 /-!
 # C06 — extraction reproduces the archived tree: contents, names, times, modes, links
 -/
@@ -537,5 +538,13 @@ theorem flat_no_directories {r : Extract.St} {fs : Fs.St} {ds : List Bytes} {pl 
     (hnd : ∀ e ∈ pl.1, e.isDir = false) (p : Fs.Path) (hp : p ≠ []) (m t : Nat) :
     Fs.lookup r.fs (fs.cwd ++ ds ++ p) ≠ some (.dir m t) :=
   ExtractTree.flatOutcome_no_dir h hb hnd p hp m t
+
+/-- **Translator tie**: the MacBinary header test of the model is the test of lib/macbinary.c over the layout macros as
+regenerated from the working tree (`Gen/Tool.lean`); the sizes used elsewhere in the pass-through model agree too. -/
+theorem macbinary_layout_matches_source :
+    (∀ d h, Reader.isMacBinaryHeader d h = GenTool.isMacBinaryHeaderG d h)
+    ∧ Gen.mbhdrSize = 128 ∧ Gen.mbhdrOffDataForkLen = 0x53 ∧ Gen.mbhdrOffResForkLen = 0x57 ∧ Gen.macOutputBufferSize = 4096
+    ∧ Gen.mbhdrOffMacbinary2Data + Gen.mbhdrLenMacbinary2Data = Gen.mbhdrSize :=
+  ⟨GenTool.mac_header_layout_matches_source, GenTool.mac_sizes_match_source⟩
 
 end LhasaV.Props.C06
